@@ -228,8 +228,8 @@ func crashSignature(prop, log string) (sig, head string) {
 		}
 	}
 	tail := s[idx:]
-	if len(tail) > 3000 {
-		tail = tail[:3000]
+	if len(tail) > 1200 {
+		tail = tail[:1200]
 	}
 	return prop + "/process-died/" + where, tail
 }
@@ -434,9 +434,14 @@ func main() {
 			continue
 		}
 		if jr.exit == 2 {
+			// exit 2 is both the harness-error code and the Go runtime's code for an
+			// unrecovered panic; harness errors carry the HARNESS marker.
 			b, _ := os.ReadFile(jr.log)
-			harnessTrouble = append(harnessTrouble, fmt.Sprintf("worker %d exit 2:\n%s", jr.job.idx, tail(string(b), 2000)))
-			continue
+			if strings.Contains(string(b), "HARNESS") || !panicLine.Match(b) {
+				harnessTrouble = append(harnessTrouble, fmt.Sprintf("worker %d exit 2:\n%s", jr.job.idx, head(string(b), 1200)))
+				continue
+			}
+			jr.died = true
 		}
 		if jr.died {
 			if jr.exit == -9 {
@@ -450,6 +455,9 @@ func main() {
 				continue
 			}
 			sig1, _ := crashSignature(prop, jr.log)
+			if sig1 != "" && seenSig[sig1] {
+				continue // same crash already confirmed from another worker
+			}
 			keep := filepath.Join(replayDir, fmt.Sprintf("%s-%d-died.json", prop, jr.job.seed))
 			b, _ := os.ReadFile(jr.current)
 			os.WriteFile(keep, b, 0o644)
@@ -549,12 +557,16 @@ func main() {
 		fmt.Printf("  %-40s %d\n", k, merged.Counters[k])
 	}
 	if len(harnessTrouble) > 0 {
-		for _, h := range harnessTrouble {
+		for i, h := range harnessTrouble {
+			if i == 3 {
+				fmt.Fprintf(os.Stderr, "check: … and %d more\n", len(harnessTrouble)-3)
+				break
+			}
 			fmt.Fprintf(os.Stderr, "check: HARNESS ERROR: %s\n", h)
 		}
 		os.Exit(2)
 	}
-	if merged.Evaluations == 0 {
+	if merged.Evaluations == 0 && len(violations) == 0 {
 		fatal2("no runs executed")
 	}
 	if len(violations) > 0 {
@@ -568,6 +580,13 @@ func main() {
 }
 
 func indent(s string) string { return "    " + strings.ReplaceAll(s, "\n", "\n    ") }
+
+func head(s string, n int) string {
+	if len(s) > n {
+		return s[:n] + "\n…"
+	}
+	return s
+}
 
 func tail(s string, n int) string {
 	if len(s) > n {
